@@ -42,7 +42,10 @@ RULE = ("cases = every maximal schedule over {set_save_interval(None|1|2|3), ini
 
 ASSUME = ["the projection is generic: every JSON object of serde_json::to_value(sim) that owns a `history` with an `i` column is a node; "
           "state.i is read as 1 when serde omits a default-valued state",
-          "locomotive kinds: conventional and battery-electric (build::loco); HybridLoco and DummyLoco are not driven",
+          "locomotive kinds: conventional and battery-electric (build::loco at realistic scale) and altrios' default HybridLoco; in a "
+          "MIXED consist under SpeedLimitTrainSim the hybrid's solve fails around step 6 (an error inside altrios' hybrid control, not "
+          "a C19 matter): such a step counts as a failing step (nothing saved, nothing incremented is still checked), the run ends "
+          "there, and the record is counted in trace_stats.unexpected; DummyLoco is not driven",
           "the initial save is walk() called while nothing is left to do (the real save_state entry point is private)",
           "failing steps are provoked through public fields (power / speed trace value, friction-brake force) right before step()",
           "path-driven walks (SpeedLimitTrainSim) take the number of executed steps from the simulation's own top-level counter"]
@@ -93,8 +96,8 @@ ENGINE = dict(name="History", path="specs/History.tla", serves_properties=["C19"
                              "schedule replayed into the four real simulation kinds, every recorded object tree validated by TLC "
                              "(HistoryTrace.tla)")
 _NOTE = ("Trusted: TLC, serde's projection of the simulation objects, the harness' path->node classification. Bounded: schedules of "
-         "<= 8 actions with <= 2 interval changes, intervals None/1/2/3, 1-3 locomotives (conventional / battery-electric); whole "
-         "walks up to ~140 steps with intervals up to 10. HybridLoco not driven.")
+         "<= 8 actions with <= 2 interval changes, intervals None/1/2/3, 1-3 locomotives (conventional / battery-electric / hybrid); "
+         "whole walks up to ~140 steps with intervals up to 10. Hybrids in mixed consists stop speed-limited runs after ~5 steps.")
 _TECH = "TLA+ spec + TLC model checking + spec->impl replay + TLC trace validation"
 MANIFEST = {
     "C19": dict(engine="History", design_ref="3 (C19)", technique=_TECH,
